@@ -13,6 +13,7 @@ PROP = {
              "transaction of the branching flow gets exactly the actions its own headers determine; lookups never fail. Non-trivial: >=2 transactions were in flight at the same time (measured). "
              "distinct = canonical JSON of the workload parameters"),
     "assumptions": [
+        "the gateway's log level (LOG_LEVEL: off in three cases of eight, else error / info / debug / trace; what is logged is thrown away, what a log statement does to build its arguments happens) is a generated part of every case of TestWorkloads (only the atomic global level moves there; the logger variable is pointed to nowhere once, before anything runs, so that the race detector sees no harness write): no answer may depend on it; a failing case reports its level",
         "unit TestVacuumKeepsEveryRegistration: the background removal of per-transaction state (MapVacuum, used for policy version pins and concurrency slots) on a virtual clock, with registrations forced inside a running pass; a key must stay until its time-to-live has passed and must be gone after time-to-live plus two ticks",
         "unit TestLimiterHeldBetweenSteps: generated schedules hold Limiter transactions between the quota increment and the verdict (yield point limiter.between-inc-and-allowed) while other Limiter transactions and counted-only requests run to their end, after 0-4200 counted-only requests that are still in flight in the same quota window, on a plain quota or a quota with two internal limits; exactly min(n, max) of the n Limiter transactions must be admitted",
         "unit TestLongWorkloads: the free-running workloads of unit 1 with 8-16 goroutines x 150-400 transactions inside one quota window (plain quota, quota with two internal limits one of which is only counted, concurrency quota)",
